@@ -527,3 +527,108 @@ Qed.
 End Dfs.
 
 End Complete.
+
+(* ---------------------------------------------------------------------------------------------- *)
+(* the levels of get_L_sets satisfy LevelsOK                                                       *)
+
+Section LevelsOfL.
+Variables (alts : list N) (votes : list (list N)).
+Hypothesis Hvotes : forall v, In v votes -> NoDup v /\ incl alts v.
+
+Fixpoint Ltail (k n : nat) : list (list N) :=
+  match n with 0 => [] | S n' => next_level alts votes (Lspec alts votes k) :: Ltail (S k) n' end.
+
+Lemma Lspec_tail n : forall k, Lspec alts votes (k + n) = Lspec alts votes k ++ Ltail k n.
+Proof.
+  induction n as [|n IH]; intros k; simpl; [now rewrite Nat.add_0_r, app_nil_r|].
+  rewrite <- Nat.add_succ_comm, IH. simpl. now rewrite <- app_assoc.
+Qed.
+
+Lemma LevelsOK_tail n : forall k, LevelsOK alts votes (concat (Lspec alts votes k)) (Ltail k n).
+Proof.
+  induction n as [|n IH]; intros k; simpl; [exact I|]. split.
+  - intros x Hx. apply (next_level_iff alts votes Hvotes) in Hx. destruct Hx as (_ & v & Hv & Hlast).
+    exists v. split; [assumption|]. intros b Hb HbD Hne. apply Hlast; [|assumption].
+    unfold Gd. apply andb_true_iff. split; [now apply memN_In|]. apply negb_true_iff. now apply memN_false.
+  - specialize (IH (S k)). simpl in IH. rewrite concat_app in IH. simpl in IH. now rewrite app_nil_r in IH.
+Qed.
+
+Lemma LevelsOK_get_L_sets : LevelsOK alts votes [] (get_L_sets alts votes).
+Proof.
+  rewrite get_L_sets_spec. pose proof (Lspec_tail (length alts) 0) as E0. simpl in E0. rewrite E0.
+  exact (LevelsOK_tail (length alts) 0).
+Qed.
+End LevelsOfL.
+
+(* ---------------------------------------------------------------------------------------------- *)
+(* the theorems                                                                                    *)
+
+Lemma axis_sp_spv alts votes axis :
+  wf_profile alts votes -> NoDup axis -> incl axis alts -> axis_sp votes axis -> forall v, In v votes -> spv v axis.
+Proof.
+  intros Hwf Hnd Hincl Hsp v Hv. apply (axis_ok_correct alts votes axis Hwf Hnd Hincl) in Hsp.
+  unfold axis_ok, sp_check_axis, spw_check_axis in Hsp. apply andb_true_iff in Hsp. destruct Hsp as [_ Hsp].
+  unfold sp_axis_profile, restrict_profile in Hsp. rewrite forallb_forall in Hsp.
+  destruct Hwf as [Ha Hc]. rewrite Forall_forall in Hc.
+  assert (Hnv : NoDup v) by (eapply Permutation_NoDup; [apply Hc|]; eauto).
+  assert (Hiv : incl axis v) by (intros a Ha'; eapply Permutation_in; [apply Hc; exact Hv|now apply Hincl]).
+  specialize (Hsp (strictify (restrict_ranking axis v))).
+  assert (Hin : In (strictify (restrict_ranking axis v)) (map strictify (map (restrict_ranking axis) votes))).
+  { apply in_map. now apply in_map. }
+  apply Hsp in Hin. apply sp_axis_weak_strictify in Hin. unfold restrict_ranking in Hin.
+  apply (spv_filter (fun a => memN a axis) v axis Hnv Hiv) in Hin; [assumption|]. intros a Ha'. now apply memN_In.
+Qed.
+
+Theorem bf_complete_min set_order alts votes k axes :
+  wf_profile alts votes -> votes <> [] -> (forall L, Permutation L (set_order L)) ->
+  valid_partition alts votes axes -> length axes <= k ->
+  exists res, bf_algo set_order alts votes k = Some res /\ length res <= length axes.
+Proof.
+  intros Hwf Hvne Hord Hvalid Hk. pose proof Hwf as [Hnd Hc]. rewrite Forall_forall in Hc.
+  assert (Hvotes : forall v, In v votes -> NoDup v /\ incl alts v).
+  { intros v Hv. split; [eapply Permutation_NoDup; [apply Hc|]; eauto|]. intros a Ha.
+    eapply Permutation_in; [apply Hc|]; eauto. }
+  (* the target: a minimum partition *)
+  destruct (min_attained alts votes Hwf) as (Tgt & [HTp HTsp] & _ & HTlen).
+  pose proof (valid_min_le alts votes axes Hwf Hvalid) as Hmin.
+  assert (Hcap : min_partition alts votes <= (length alts + 1) / 2).
+  { destruct alts as [|a0 al] eqn:Ea.
+    - unfold min_partition. etransitivity; [apply list_min_le_d|]. simpl. lia.
+    - rewrite <- Ea in *. apply min_partition_bounds; [assumption|]. rewrite Ea. discriminate. }
+  assert (HT_nd : NoDup (concat Tgt)) by (eapply Permutation_NoDup; eauto).
+  assert (HT_in : incl (concat Tgt) alts).
+  { intros a Ha. eapply Permutation_in; [apply Permutation_sym; exact HTp|exact Ha]. }
+  assert (HT_cov : forall a, In a alts -> In a (concat Tgt)) by (intros a Ha; eapply Permutation_in; eauto).
+  assert (HT_sp : forall B, In B Tgt -> completable votes pa_empty B).
+  { intros B HB. exists B. split; [apply Permutation_refl|]. intros v Hv. simpl. rewrite app_nil_r.
+    destruct (perm_concat_block alts Tgt B Hnd HTp HB) as [HBn HBi].
+    rewrite Forall_forall in HTsp. exact (axis_sp_spv alts votes B Hwf HBn HBi (HTsp B HB) v Hv). }
+  unfold bf_algo.
+  set (k' := if (length alts + 1) / 2 <? k then (length alts + 1) / 2 else k).
+  assert (Hk' : length Tgt <= k').
+  { unfold k'. destruct ((length alts + 1) / 2 <? k); lia. }
+  destruct (L_sets_ok alts votes Hvne (fun v Hv => proj2 (Hvotes v Hv)) Hnd) as (L1 & L2 & L3).
+  pose proof (LevelsOK_get_L_sets alts votes Hvotes) as HLv.
+  assert (HD : forall a : N, In a [] -> In a (E [])) by (intros a []).
+  assert (Hcov : forall a, In a alts -> In a (E []) \/ In a (concat (get_L_sets alts votes))) by (intros a Ha; right; now apply L3).
+  assert (HC : Compat votes Tgt []).
+  { exists [], Tgt. split; [reflexivity|]. split; [apply Permutation_refl|constructor]. }
+  destruct (dfs_complete alts votes Hvne Hvotes Tgt HT_nd HT_in HT_cov HT_sp set_order Hord
+              (get_L_sets alts votes) [] [] None k' HLv L1 L2 HD Hcov HC Hk') as (r & Er & Hr).
+  rewrite Er. simpl. exists (map pa_elems r). split; [reflexivity|]. rewrite map_length. lia.
+Qed.
+
+(* the second sentence of the property holds of the mirror, for every size and every bound *)
+Theorem bf_algo_ok set_order alts votes k :
+  wf_profile alts votes -> votes <> [] -> (forall L, Permutation L (set_order L)) ->
+  brute_force_ok alts votes k (bf_algo set_order alts votes k) = true.
+Proof.
+  intros Hwf Hvne Hord. destruct (le_lt_dec (min_partition alts votes) k) as [Hle|Hlt].
+  - destruct (min_attained alts votes Hwf) as (axes0 & Hv0 & _ & Hlen0).
+    destruct (bf_complete_min set_order alts votes k axes0 Hwf Hvne Hord Hv0) as (res & Er & Hres); [lia|].
+    rewrite Er. destruct (bf_some_bounds set_order alts votes k res Hwf Hvne Hord Er) as [[Hb1 Hb2] Hok].
+    apply Hok. lia.
+  - rewrite (bf_none_when_infeasible set_order alts votes k Hwf Hvne Hord Hlt).
+    unfold brute_force_ok, brute_force_ok_with.
+    assert (E0 : (min_partition alts votes <=? k) = false) by (apply Nat.leb_gt; lia). now rewrite E0.
+Qed.
